@@ -304,7 +304,7 @@ package shimagent
 //@     invariant certsInMemory == s.certs && keysInAgent == ret(filter, f0, 1)
 //@     invariant cacheOff(s) && allocated(arr(keysInAgent)) && (keys == nil || (fresh(arr(keys)) && arr(keys) != arr(keysInAgent)))
 //@     invariant certsNonNil(s)
-//@     invariant forall(j, 0 <= j && j < len(keysInAgent), keysInAgent[j] != nil && akBlob(keysInAgent[j]) == blobid(asKey(keysInAgent[j])))
+//@     invariant forall(j, 0 <= j && j < len(keysInAgent), keysInAgent[j] != nil && akBlob(keysInAgent[j]) == blobid(asKey(keysInAgent[j])), keysInAgent[j])
 //@     invariant forall(i, 0 <= i && i < len(keys), keys[i] != nil && (sha(akBlob(keys[i])) in dom(s.certs)))
 //@     invariant forall(h#bytes, visited(h), exists(i, 0 <= i && i < len(keys), akBlob(keys[i]) == blobid(asKey(s.certs[h]))))
 //@   loop 2:
@@ -314,7 +314,7 @@ package shimagent
 //@     invariant cacheOff(s) && allocated(arr(keysInAgent)) && (keys == nil || (fresh(arr(keys)) && arr(keys) != arr(keysInAgent)))
 //@     invariant mapdom(s.certs) == entry(mapdom(s.certs)) && mapval(s.certs) == entry(mapval(s.certs))
 //@     invariant certsNonNil(s)
-//@     invariant forall(j, 0 <= j && j < len(keysInAgent), keysInAgent[j] != nil && akBlob(keysInAgent[j]) == blobid(asKey(keysInAgent[j])))
+//@     invariant forall(j, 0 <= j && j < len(keysInAgent), keysInAgent[j] != nil && akBlob(keysInAgent[j]) == blobid(asKey(keysInAgent[j])), keysInAgent[j])
 //@     invariant forall(i, 0 <= i && i < len(keys), keys[i] != nil)
 //@     invariant entry(len(keys)) <= len(keys) && forall(i, 0 <= i && i < entry(len(keys)), sha(akBlob(keys[i])) in dom(s.certs))
 //@     invariant [no-hidden-upstream-certificate-is-listed] forall(i, entry(len(keys)) <= i && i < len(keys), s.noUpstreamSSHCACert ==> !hiddenBlob(akBlob(keys[i])))
